@@ -30,7 +30,8 @@ ASSUMPTIONS = ['optional formats (xlsx, hdf5, parquet) are not installed and are
                'mtime changes are applied with os.utime to an explicitly different time (no timing dependence)']
 
 FORMATS = ('zip_pickle', 'zip_csv', 'zip_tsv', 'sqlite')
-ACCESS = ('get', 'get', 'get', 'list', 'slice', 'iloc', 'bool', 'items', 'values', 'iter', 'get_method', 'contains')
+# (the first entry is favoured by Hypothesis for late draws: a multi-label selection, the access that loads in batches)
+ACCESS = ('list', 'get', 'slice', 'get', 'bool', 'get', 'iloc', 'items', 'values', 'iter', 'get_method', 'contains')
 INSPECT = ('status', 'shapes', 'nbytes', 'mloc', 'len', 'index', 'display')
 DERIVE = ('sel_list', 'drop', 'reindex', 'sort_index', 'rename', 'head', 'iloc_slice')
 FAULT = ('touch', 'rewrite_same', 'delete', 'replace')
@@ -58,7 +59,7 @@ def frame_spec(draw, fmt):
         idx = draw(gen.tree_labels_n(n, depth=2))
         if any(isinstance(x, np.datetime64) for t in idx for x in t):
             idx = [('p', i) for i in range(n)]
-    if fmt == 'sqlite' and draw(st.integers(0, 5)):
+    if fmt == 'sqlite' and draw(st.integers(0, 5)) < 5:
         idx = sorted(idx)  # SQLite returns rows in primary-key order (known finding): keep unsorted labels rare
     return {'cols': cols, 'index': idx, 'idepth': idepth, 'columns': ['c%d' % j for j in range(m)]}
 
@@ -67,18 +68,21 @@ def frame_spec(draw, fmt):
 def step(draw):
     k = draw(st.sampled_from(['access'] * 6 + ['inspect', 'derive', 'fault']))
     s = draw(st.sampled_from({'access': ACCESS, 'inspect': INSPECT, 'derive': DERIVE, 'fault': FAULT}[k]))
-    return {'k': k, 's': s, 'i': draw(st.integers(0, 30)), 'j': draw(st.integers(0, 30)), 'b': draw(st.integers(0, 3)), 'mask': draw(st.integers(0, 31))}
+    return {'k': k, 's': s, 'i': draw(st.integers(0, 30)), 'j': draw(st.integers(0, 30)), 'b': draw(st.integers(0, 3)), 'mask': 31 - draw(st.integers(0, 31))}  # (minimal draw = every label)
 
 
 def cases(max_steps):
     @st.composite
     def s(draw):
+        # the history and the options first, the frame contents last (late draws are pinned to their minimal choice
+        # for a share of Hypothesis's examples)
         fmt = draw(st.sampled_from(FORMATS))
-        k = draw(st.integers(1, 5))
+        k = draw(st.sampled_from([4, 3, 5, 2, 1]))
+        mp = draw(st.sampled_from([x for x in (2, 3, None, 1, 4, 5) if x is None or x <= k]))
+        workers = draw(st.sampled_from([None, 2, None]))
+        steps = draw(st.lists(step(), min_size=1, max_size=max_steps))
         frames = [draw(frame_spec(fmt)) for _ in range(k)]
-        mp = draw(st.one_of(st.none(), st.integers(1, k)))
-        return {'fmt': fmt, 'frames': frames, 'max_persist': mp, 'steps': draw(st.lists(step(), min_size=1, max_size=max_steps)),
-                'workers': draw(st.sampled_from([None, None, 2]))}
+        return {'fmt': fmt, 'frames': frames, 'max_persist': mp, 'steps': steps, 'workers': workers}
     return s()
 
 
@@ -439,6 +443,6 @@ def tag(case, f):
 
 
 SUBS = [
-    Sub('history', cases(14), check, quick=700, thorough=24000, tag=tag, thorough_strategy=cases(30),
+    Sub('history', cases(14), check, quick=3200, thorough=24000, tag=tag, thorough_strategy=cases(30),
         rule='Bus access / derivation / fault histories vs eager model with explicit LRU'),
 ]
